@@ -30,7 +30,8 @@ type c15Params struct {
 	Stored      map[int]uint64 `json:"stored,omitempty"` // vb -> checkpoint seqno
 	Highs       map[int]uint64 `json:"highs,omitempty"`
 	Backend     string         `json:"backend,omitempty"`
-	ExpectStart bool           `json:"expect_start"` // control case: must start and cover every vBucket
+	OtherBucket bool           `json:"other_bucket,omitempty"` // the stored entries carry another bucket uuid (bucket dropped and recreated under the same name)
+	ExpectStart bool           `json:"expect_start"`           // control case: must start and cover every vBucket
 	WaitMs      int            `json:"wait_ms,omitempty"`
 }
 
@@ -86,6 +87,8 @@ func init() {
 							p.Stored[vb] = p.Highs[vb]
 						}
 					}
+					// the stored entries may have been written for a bucket of the same name that no longer exists
+					p.OtherBucket = p.Backend != "mem" && rng.Intn(2) == 0
 					if rel == "above" {
 						p.VBs = subset(n)
 						for _, vb := range p.VBs {
@@ -190,7 +193,7 @@ func c15Hash(p *c15Params) string {
 	} else if len(p.VBs) > 1 {
 		shape = "some"
 	}
-	return drv.Hash(p.Fault, shape, fmt.Sprint(p.Status, p.Silent, p.Mode, p.Backend, p.Nodes, p.ExpectStart, p.NumVB))
+	return drv.Hash(p.Fault, shape, fmt.Sprint(p.Status, p.Silent, p.Mode, p.Backend, p.Nodes, p.ExpectStart, p.NumVB, p.OtherBucket))
 }
 
 func runC15(sc drv.Scenario) drv.Result {
@@ -229,6 +232,10 @@ func runC15(sc drv.Scenario) drv.Result {
 		cfg.Checkpoint.AutoReset = p.AutoReset
 	}
 	var md *hx.MemMetadata
+	storedBucket := env.Sim.UUID
+	if p.OtherBucket {
+		storedBucket = "0b5c0ffee0b5c0ffee0b5c0ffee0b5c0"
+	}
 	switch p.Backend {
 	case "mem":
 		md = hx.NewMemMetadata(env.Log)
@@ -242,7 +249,7 @@ func runC15(sc drv.Scenario) drv.Result {
 		m := map[string]any{}
 		for vb := 0; vb < p.NumVB; vb++ {
 			s := p.Stored[vb]
-			m[fmt.Sprint(vb)] = map[string]any{"checkpoint": map[string]any{"vbuuid": 0xabc000 + uint64(vb), "seqno": s, "snapshot": map[string]any{"startSeqno": s, "endSeqno": s}}, "bucketUuid": env.Sim.UUID}
+			m[fmt.Sprint(vb)] = map[string]any{"checkpoint": map[string]any{"vbuuid": 0xabc000 + uint64(vb), "seqno": s, "snapshot": map[string]any{"startSeqno": s, "endSeqno": s}}, "bucketUuid": storedBucket}
 		}
 		b, _ := json.MarshalIndent(m, "", "  ")
 		switch p.FileContent {
@@ -263,7 +270,7 @@ func runC15(sc drv.Scenario) drv.Result {
 		cfg.Metadata.Config = map[string]string{"fileName": path}
 	default:
 		for vb, s := range p.Stored {
-			doc := fmt.Sprintf(`{"checkpoint":{"snapshot":{"startSeqno":%d,"endSeqno":%d},"vbuuid":%d,"seqno":%d},"bucketUuid":"%s"}`, s, s, 0xabc000+uint64(vb), s, env.Sim.UUID)
+			doc := fmt.Sprintf(`{"checkpoint":{"snapshot":{"startSeqno":%d,"endSeqno":%d},"vbuuid":%d,"seqno":%d},"bucketUuid":"%s"}`, s, s, 0xabc000+uint64(vb), s, storedBucket)
 			env.Sim.PutDoc(fmt.Sprintf("_connector:cbgo:%s:checkpoint:%d", cfg.Dcp.Group.Name, vb), []byte("{}"), map[string]json.RawMessage{"cbgo": json.RawMessage(doc)})
 		}
 	}
